@@ -51,6 +51,10 @@ def check(run, P):
              "returns and emits begin/body/end in order", minimum=6)
     run.rule("C05.simplify", "the simplifier applied by the lowering keeps polarity, "
              "order and guards (shared with C06)", minimum=15)
+    run.rule("C05.nulls", "the post-simplification pass removes an empty node from "
+             "every child slot of every node class, so the walker never meets one",
+             minimum=4)
+    _nulls(run, P)
     _sorted(run, P)
     _topo_wrap(run, P)
     _loops(run, P)
@@ -77,6 +81,67 @@ def check(run, P):
         if src.startswith("C06."):
             del run.rule_docs[src]
             del run.minimum[src]
+
+
+def _nulls(run, P):
+    """Child slots: constructor parameters of node classes that the identity
+    mapper feeds with self.rec(...)."""
+    IM = P.cls(f"{MOD}.ASTIdentityMapper")
+    PM = P.cls(f"{MOD}.ASTPostSimplifyMapper")
+    from .c06 import _slots
+    for name, f in sorted(IM.methods.items()):
+        if not name.startswith("map_"):
+            continue
+        clsname = name[4:]
+        rec_slots = []
+        for x in ast.walk(f.node):
+            if isinstance(x, ast.Call) and dotted(x.func) == "self.rec" and x.args \
+                    and isinstance(x.args[0], ast.Attribute):
+                rec_slots.append(x.args[0].attr)
+            if isinstance(x, (ast.ListComp, ast.GeneratorExp)) and isinstance(x.elt, ast.Call) \
+                    and dotted(x.elt.func) == "self.rec":
+                it = x.generators[0].iter
+                if isinstance(it, ast.Attribute):
+                    rec_slots.append(it.attr)
+        node_slots = [sl for sl in rec_slots if sl not in ("condition", "lbound", "ubound")]
+        if not node_slots:
+            continue
+        h = PM.methods.get(name)
+        pre = P.cls(f"{MOD}.ASTPreSimplifyMapper").methods.get(name)
+        if h is None and pre is not None:
+            # the node class is rewritten away by the pre pass (IfThen -> IfThenElse)
+            run.ob("C05.nulls", pre, pre.node, True,
+                   construct=f"{clsname}: rewritten by the pre-simplification pass",
+                   why="never reaches the post pass")
+            continue
+        ok = h is not None
+        tested = set()
+        if ok:
+            for x in ast.walk(h.node):
+                if isinstance(x, ast.Call) and dotted(x.func) == "isinstance" and len(x.args) == 2 \
+                        and "NullASTNode" in ast.unparse(x.args[1]):
+                    tested.add(dotted(x.args[0]))
+            # map slot -> local assigned from self.rec(expr.slot) / loop variable
+            for sl in node_slots:
+                locs = set()
+                for s_ in ast.walk(h.node):
+                    if isinstance(s_, ast.Assign) and isinstance(s_.value, ast.Call) \
+                            and dotted(s_.value.func) == "self.rec" and s_.value.args:
+                        a0 = s_.value.args[0]
+                        if isinstance(a0, ast.Attribute) and a0.attr == sl:
+                            locs |= {t.id for t in s_.targets if isinstance(t, ast.Name)}
+                        if isinstance(a0, ast.Name):
+                            # child = self.rec(child) inside `for child in expr.children`
+                            for lp in ast.walk(h.node):
+                                if isinstance(lp, ast.For) and isinstance(lp.iter, ast.Attribute) \
+                                        and lp.iter.attr == sl and dotted(lp.target) == a0.id:
+                                    locs |= {t.id for t in s_.targets if isinstance(t, ast.Name)}
+                ok = ok and bool(locs & tested)
+        run.ob("C05.nulls", h if h is not None else PM, h.node if h is not None else PM.node, ok,
+               construct=f"{clsname}: post pass tests child slot(s) {node_slots} for NullASTNode",
+               why=f"an empty node left in a {clsname} reaches the walker, which raises "
+                   f"'Unrecognized node type' (e.g. a looped assignment whose guard is "
+                   f"the constant False)")
 
 
 def _sorted(run, P):
@@ -286,16 +351,36 @@ def _loops(run, P):
                why="wrapping inside-out must walk the loops in reverse, else the first "
                    "declared loop ends up innermost and a bound that uses an outer "
                    "loop variable is read before it exists")
-    # guard innermost: conditional_to_ast only reached for loop-free statements
-    calls = [x for x in ast.walk(f.node) if isinstance(x, ast.Call)
-             and dotted(x.func) == "conditional_to_ast"]
-    ok = bool(calls)
-    top = [n for n in f.node.body if isinstance(n, ast.If)]
-    guard_ok = bool(top) and "statement.loops" in ast.unparse(top[0].test)
-    run.ob("C05.loops", f, calls[0] if calls else f.node, ok and guard_ok,
-           construct="conditional_to_ast(...) wraps the loop-free statement (guard innermost)",
-           why="loops outermost, then guard: the guard is evaluated per iteration as "
-               "in the interpreter")
+    # guard innermost: the body of the innermost loop is the guard wrapper
+    param = f.params[0]
+    if iterative is None:
+        # recursion bottoms out in the branch without loops
+        base = [r for r in ast.walk(f.node) if isinstance(r, ast.Return)
+                and isinstance(r.value, ast.Call) and dotted(r.value.func) == "conditional_to_ast"
+                and r.value.args and dotted(r.value.args[0]) == param]
+        ok = bool(base)
+        site = base[0] if base else f.node
+    else:
+        body = slots.get("body")
+        seed = None
+        if isinstance(body, ast.Name):
+            for s_ in func_body_stmts(f.node):
+                if isinstance(s_, ast.Assign) and any(isinstance(t, ast.Name) and t.id == body.id
+                                                      for t in s_.targets) \
+                        and not any(x is s_ for x in ast.walk(iterative)):
+                    seed = s_
+        ok = seed is not None and isinstance(seed.value, ast.Call) \
+            and dotted(seed.value.func) == "conditional_to_ast"
+        site = seed if seed is not None else iterative
+    run.ob("C05.loops", f, site, ok,
+           construct="the innermost loop body is conditional_to_ast(<loop-free statement>)",
+           why="loops outermost, then guard: wrapped without the guard helper, a "
+               "guarded assignment with loops runs although its guard is false")
+    top = [n for n in ast.walk(f.node) if isinstance(n, ast.If)
+           and f"{param}.loops" in ast.unparse(n.test)]
+    run.ob("C05.loops", f, top[0] if top else f.node, bool(top),
+           construct="statements without loops go straight to the guard wrapper",
+           why="dispatch on the presence of loops")
 
 
 def _cond(run, P):
